@@ -93,6 +93,7 @@ private:
     virtual Action visitParenthesizedDeclarator(const ParenthesizedDeclaratorSyntax*) override;
     virtual Action visitIdentifierDeclarator(const IdentifierDeclaratorSyntax*) override;
     virtual Action visitAbstractDeclarator(const AbstractDeclaratorSyntax*) override;
+    virtual Action visitBitfieldDeclarator(const BitfieldDeclaratorSyntax*) override;
     Action visitDeclarator_COMMON(const DeclaratorSyntax*);
 };
 
